@@ -1168,6 +1168,47 @@ fn c22(rep: &mut Report, http: &Http, strings: &[Vec<String>]) {
     }
 }
 
+/// The two documents at every state of the update cycle of a fresh server: nothing installed yet (the status
+/// endpoint answers 503), the first data installed but the run not yet marked done (no duration of a last update
+/// exists), the run marked done, a second run started, installed, marked done.
+fn c22_states(rep: &mut Report) {
+    let http = match Http::start() { Ok(h) => h, Err(e) => { rep.divergence("C22", format!("states: {e}")); return } };
+    let tal = "ta-plain";
+    let look = |rep: &mut Report, state: &str| {
+        let beh = json!({"history_state": state});
+        for path in ["/api/v1/status", "/metrics"] {
+            rep.eval("C22");
+            rep.nontrivial("C22", format!("state|{state}|{path}"));
+            match http.get(path) {
+                Err(e) => rep.violation("C22", &format!("state/{state}/no-response"), e.clone(), beh.clone(), json!({"error": e})),
+                Ok((status, body)) => {
+                    let body = String::from_utf8_lossy(&body).to_string();
+                    if status == 503 || (status != 200 && state == "initial") { continue }       // "initial validation ongoing", plain text
+                    let res = if path == "/metrics" { prom_parse(&body).map(|_| ()) }
+                              else { serde_json::from_str::<Value>(&body).map(|_| ()).map_err(|e| format!("{e}: {}", fragment(&body, e.line(), e.column()))) };
+                    if let Err(e) = res {
+                        rep.violation("C22", &format!("state/{state}{}", path.replace("/api/v1", "")),
+                            format!("{path} is not well-formed in the state '{state}' (status {status}): {e}"), beh.clone(), json!({"error": e, "body": excerpt(&body)}));
+                    }
+                }
+            }
+        }
+    };
+    look(rep, "initial");
+    http.hist.mark_update_start();
+    look(rep, "first-run-started");
+    http.hist.update(ValidationReport::new(&http.cfg), &LocalExceptions::empty(), c22_metrics("tal-name", tal));
+    look(rep, "first-run-installed-not-done");
+    http.hist.mark_update_done();
+    look(rep, "first-run-done");
+    http.hist.mark_update_start();
+    look(rep, "second-run-started");
+    http.hist.update(ValidationReport::new(&http.cfg), &LocalExceptions::empty(), c22_metrics("tal-name", tal));
+    look(rep, "second-run-installed-not-done");
+    http.hist.mark_update_done();
+    look(rep, "second-run-done");
+}
+
 /// The text around a serde_json error position.
 fn fragment(body: &str, line: usize, col: usize) -> String {
     let ls: Vec<&str> = body.split('\n').collect();
@@ -1237,6 +1278,7 @@ pub fn main(args: &Args) -> i32 {
     if args.wants("C22") {
         c22(&mut rep, http.as_ref().unwrap(), &strings);
         rep.note("C22", "strings", json!(strings.len()));
+        c22_states(&mut rep);
     }
     rep.write(args)
 }
